@@ -35,6 +35,7 @@ type c03Case struct {
 	Hdr       map[string]string
 	Refuse4xx bool // an HTTP 4xx/5xx answer is acceptable instead of a JSON-RPC error
 	IDOpt     bool // the envelope is invalid: an error reply may omit the id (it could not be determined)
+	Registry  string // "" = the fixed registrations; "empty" = nothing registered; "hidden" = everything registered but hidden by list filters
 }
 
 var c03Values = []string{`null`, `true`, `0`, `-1`, `1.5`, `9007199254740992`, `""`, `"s"`, `[]`, `[1]`, `{}`, `{"k":1}`}
@@ -113,6 +114,22 @@ func c03Cases(tier string) []c03Case {
 				c.Kind = "rpc"
 			}
 			out = append(out, c)
+		}
+		// list methods on a server that has nothing to list (nothing registered / everything hidden by filters)
+		for _, reg := range []string{"empty", "hidden"} {
+			if reg == "hidden" && mode == "io" {
+				continue
+			}
+			for _, lm := range []string{"tools/list", "prompts/list", "resources/list", "resources/templates/list"} {
+				c := c03Case{Label: "valid " + lm + " registry=" + reg, Msg: mkMsg(7, lm, nil, nil), Method: lm, ReqID: "7", Success: true, Registry: reg}
+				if reg == "empty" && lm != "tools/list" {
+					c.Codes = []int{-32601} // prompts / resources are not advertised (and may be refused) while none is registered
+				}
+				if lm == "resources/templates/list" {
+					c.Codes = []int{-32601}
+				}
+				add(c)
+			}
 		}
 		for _, m := range c03Methods() {
 			served := mode != "io" || m.ioServes
@@ -336,8 +353,27 @@ func c03Eval(cs c03Case) CaseResult {
 	obs := &hx.Log{}
 	var re *Reaction
 	res := vsched.Run(vsched.Config{}, func() {
-		r := NewRig(cs.Mode)
-		c03Register(r)
+		var r *Rig
+		switch cs.Registry {
+		case "empty":
+			r = NewRig(cs.Mode)
+		case "hidden":
+			hideT := func(ctx context.Context, in []*mcp.Tool) []*mcp.Tool { return nil }
+			hideP := func(ctx context.Context, in []*mcp.Prompt) []*mcp.Prompt { return nil }
+			hideR := func(ctx context.Context, in []*mcp.Resource) []*mcp.Resource { return nil }
+			switch cs.Mode {
+			case "ls":
+				r = NewRig(cs.Mode, mcp.WithSSEToolListFilter(hideT), mcp.WithSSEPromptListFilter(hideP), mcp.WithSSEResourceListFilter(hideR))
+			case "io":
+				r = NewRig(cs.Mode)
+			default:
+				r = NewRig(cs.Mode, mcp.WithToolListFilter(hideT), mcp.WithPromptListFilter(hideP), mcp.WithResourceListFilter(hideR))
+			}
+			c03Register(r)
+		default:
+			r = NewRig(cs.Mode)
+			c03Register(r)
+		}
 		r.Start()
 		rp := NewRawPeer(r)
 		if err := rp.Handshake(); err != nil {
